@@ -4,6 +4,16 @@ batches; direct oracle = fresh scan; tie = Lean model `Gtirb.Index`."""
 import core
 
 N_SEC, N_BI, N_BLK = 3, 5, 9
+
+
+def sandwich_line(line, a, b):
+    """section / module / IR scope block and symbolic-expression lookups:
+    the property fixes the answer only up to the must / may sandwich (what
+    lies beyond an interval's declared extent may or may not be reported),
+    which the direct oracle has checked on the implementation's answer; the
+    model's answer is the current code's choice inside that sandwich
+    (theorems C05_scope_*_sound / _inside, C13_scope_at_sandwich)"""
+    return line.startswith(("q sbon ", "q sbat ", "symq "))
 ADDRS = [None, 0, 1, 2, 3, 4, 5, 6, 8, 10, 12]
 BIG = [2**64 - 8, 2**63]
 
@@ -534,7 +544,8 @@ def run(ctx):
                 "every scope and all 18 methods; oracle = fresh scan (exact "
                 "at interval scope, must/may sandwich above); non-trivial = "
                 "distinct (scope, method, result size, stepped?, ...)")
-    tie = core.BatchTie(ctx, "index", "index", flush_at=60)
+    tie = core.BatchTie(ctx, "index", "index", flush_at=60,
+                         skip_line=sandwich_line)
     n = ctx.scale(250, 6000)
     for h in range(n):
         run_history(ctx, h, ctx.scale(40, 60), tie,
@@ -545,7 +556,8 @@ def run(ctx):
 
 
 def search(ctx, broken):
-    tie = core.BatchTie(ctx, "index", "index", flush_at=60)
+    tie = core.BatchTie(ctx, "index", "index", flush_at=60,
+                         skip_line=sandwich_line)
     for h in range(3000):
         run_history(ctx, 10**6 + h, 60, tie, 0.5)
         if ctx.violations:
@@ -563,7 +575,8 @@ def run_sym(ctx, n=None):
     symbolic expressions stored in the intervals (also beyond their declared
     size), every scope's symbolic_expressions_at against the may/must
     sandwich and against the Lean model `SymScopes` (exact)."""
-    tie = core.BatchTie(ctx, "symscopes", "symscopes", flush_at=60)
+    tie = core.BatchTie(ctx, "symscopes", "symscopes", flush_at=60,
+                         skip_line=sandwich_line)
     for h in range(n or ctx.scale(150, 3000)):
         run_history(ctx, 5 * 10**5 + h, ctx.scale(40, 60), tie,
                     ctx.rng.choice([0.3, 0.6, 1.0]), sym=True)
